@@ -54,6 +54,26 @@ def _store_calls(ctx, f, n, names):
     return out
 
 
+def _match_keys(f, g, df, T, wterm):
+    """Keys of the expressions whose truth means "the packet just read belongs to the caller's stream": the call
+    `adb_info.args_match(<field 1>, <field 2>, ..)` itself, and a local flag bound (only) to such a call."""
+    out = set()
+
+    def good(c2, at):
+        return isinstance(c2, ast.Call) and call_attr(c2) == "args_match" and len(c2.args) >= 2 \
+            and T.term(f, at, c2.args[0]) == ("proj", wterm, 1) and T.term(f, at, c2.args[1]) == ("proj", wterm, 2)
+    for tn in g.live_nodes():
+        if tn.kind == "test":
+            for sub in ast.walk(tn.ast.test):
+                if isinstance(sub, ast.Call) and good(sub, tn):
+                    out.add(key(sub))
+                if isinstance(sub, ast.Name) and isinstance(sub.ctx, ast.Load):
+                    d = df.unique_def(tn, sub.id)
+                    if d is not None and d.kind == "assign" and not d.path and d.value is not None and good(unawait(d.value), d.node):
+                        out.add(key(sub))
+    return out
+
+
 def _pump(ctx, R, roles, li, T):
     f = roles.pump
     g = ctx.cfg(f)
@@ -174,16 +194,37 @@ def _pump(ctx, R, roles, li, T):
         R.check(sl in li.held(f, n) and tl in li.held(f, n), "ROUTE", f.qualname + "|put|locks", "parking happens under transport and store lock", None, f.loc(n.ast))
         # governed by NOT args_match(arg0, arg1, ...) of that packet
         ok = False
+        # tests on the call itself, or on a local flag whose only definition reaching the test is `flag = ...args_match(..)`
+        cands = []
         for tn in am_nodes:
             for c2 in node_calls(tn):
                 if call_attr(c2) == "args_match" and len(c2.args) >= 2:
-                    a0 = T.term(f, tn, c2.args[0])
-                    a1 = T.term(f, tn, c2.args[1])
-                    if a0 == ("proj", wterm, 1) and a1 == ("proj", wterm, 2):
-                        pol_true = isinstance(unawait(tn.ast.test), ast.UnaryOp)   # `not args_match(...)`
-                        lab = "true" if pol_true else "false"
-                        if n in g.reach_from_edge(tn, lab, avoid=[tn], exc=False) and n not in g.reach_from_edge(tn, "false" if lab == "true" else "true", avoid=[tn], exc=False):
-                            ok = True
+                    tt = unawait(tn.ast.test)
+                    inner = tt.operand if isinstance(tt, ast.UnaryOp) and isinstance(tt.op, ast.Not) else tt
+                    if unawait(inner) is c2:
+                        cands.append((tn, isinstance(tt, ast.UnaryOp), c2, tn))
+        for tn in g.live_nodes():
+            if tn.kind != "test":
+                continue
+            tt = unawait(tn.ast.test)
+            neg = isinstance(tt, ast.UnaryOp) and isinstance(tt.op, ast.Not)
+            nm = tt.operand if neg else tt
+            if isinstance(nm, ast.Name):
+                d = df.unique_def(tn, nm.id)
+                if d is not None and d.kind == "assign" and not d.path and d.value is not None:
+                    c2 = unawait(d.value)
+                    if isinstance(c2, ast.Call) and call_attr(c2) == "args_match" and len(c2.args) >= 2:
+                        cands.append((tn, neg, c2, d.node))
+        for tn, pol_true, c2, at in cands:
+            a0 = T.term(f, at, c2.args[0])
+            a1 = T.term(f, at, c2.args[1])
+            if a0 == ("proj", wterm, 1) and a1 == ("proj", wterm, 2):
+                lab = "true" if pol_true else "false"
+                if n in g.reach_from_edge(tn, lab, avoid=[tn], exc=False) and n not in g.reach_from_edge(tn, "false" if lab == "true" else "true", avoid=[tn], exc=False):
+                    ok = True
+        mk = _match_keys(f, g, df, T, wterm)
+        if not ok and any(fa[0][0] == "truthy" and fa[0][1] in mk and fa[1] is False for fa in df.facts(n)):
+            ok = True
         R.check(ok, "ROUTE", f.qualname + "|put|foreign-only", "only packets that do not match the caller's (remote, local) ids are parked",
                 "parking is not governed by `not args_match(arg0, arg1, ...)` on the packet just read", f.loc(n.ast))
     # every foreign packet is parked: on the not-match branch the put post-dominates
@@ -231,6 +272,8 @@ def _pump(ctx, R, roles, li, T):
                     lab = "false" if pol_true else "true"
                     if rn in g.reach_from_edge(tn, lab, avoid=[tn], exc=False) and rn not in g.reach_from_edge(tn, "true" if lab == "false" else "false", avoid=[tn], exc=False):
                         okm = True
+                if not okm and any(fa[0][0] == "truthy" and fa[0][1] in _match_keys(f, g, df, T, wterm) and fa[1] is True for fa in facts):
+                    okm = True
                 R.check(okm, "PUMP-ret", sub + "|own-stream", "a packet read off the wire is returned only if its ids match the caller's stream",
                         "a packet read off the wire can be returned to a caller whose (remote, local) ids it does not match (cross-talk)", f.loc(rn.ast))
     R.count("PUMP-ret[%s]" % roles.tag, nret, 3)
